@@ -38,9 +38,11 @@ def cs_revert_during_add(trace, i, par):
 
 
 def cs_header_of_inflight(trace, i, par):
-    """F23: a headers message containing the block in flight (popped, not yet added) was handled."""
+    """F23: a headers message containing the block in flight (popped, not yet added) was handled and requests behind it were cleared."""
     for k, m, pre in _hdr_steps(trace, i):
-        if pre['infl']['pc'] != 'idle' and pre['infl']['b'] in m['hs']:
+        post = trace[k]['st']
+        cleared = len(post['req']) + len(post['toReq']) < len(pre['req']) + len(pre['toReq'])
+        if pre['infl']['pc'] != 'idle' and pre['infl']['b'] in m['hs'] and cleared:
             return True
     return False
 
@@ -84,6 +86,22 @@ def cs_unconnected_headers(trace, i, par):
         known = {0} | set(pre['chain']) | {r['b'] for r in pre['req']} | set(pre['toReq']) | {pre['lastSaved']}
         if p not in known and b not in known:
             return True
+    return False
+
+
+def cs_duplicate_answer_in_sync(trace, i, par):
+    """F39: the node went in sync on a headers message that is a duplicate (an earlier delivery of the same message kept a
+    copy in the network) while one of its header requests was still unanswered."""
+    kept = []
+    for k in range(1, i + 1):
+        a = trace[k]['act']
+        if a['a'] != 'Deliver' or a['m']['t'] != 'hdr' or trace[k].get('skip'):
+            continue
+        pre, post = trace[k - 1]['st'], trace[k]['st']
+        if not pre['inSync'] and post['inSync'] and a['m']['hs'] in kept and any(r['t'] == 'gh' for r in pre['out'] + post['out']):
+            return True
+        if a.get('k'):
+            kept.append(a['m']['hs'])
     return False
 
 
